@@ -46,15 +46,24 @@ pub(crate) fn named(attr: &StructAttr, ts_name: Expr, fields: &FieldsNamed) -> R
             let flattened = #flattened;
             // drop the outer parentheses only if they enclose the whole type: in
             // `(A | B) & (C | D)` the first `(` does not belong to the last `)`
+            // (string literals and the doc comments embedded in the type are skipped)
             let mut depth = 0usize;
             let mut in_string = false;
+            let mut in_comment = false;
             let mut escaped = false;
+            let mut prev = ' ';
             let mut enclosed = flattened.starts_with('(') && flattened.ends_with(')');
             for (i, c) in flattened.char_indices() {
+                if in_comment {
+                    in_comment = !(prev == '*' && c == '/');
+                    prev = c;
+                    continue;
+                }
                 match c {
                     _ if escaped => escaped = false,
                     '\\' if in_string => escaped = true,
                     '"' => in_string = !in_string,
+                    '*' if !in_string && prev == '/' => in_comment = true,
                     '(' if !in_string => depth += 1,
                     ')' if !in_string => {
                         depth = depth.saturating_sub(1);
@@ -64,6 +73,8 @@ pub(crate) fn named(attr: &StructAttr, ts_name: Expr, fields: &FieldsNamed) -> R
                     }
                     _ => (),
                 }
+                // (the `*` that opens a comment does not also close it: `/*/`)
+                prev = if in_comment { ' ' } else { c };
             }
             if enclosed {
                 flattened[1..flattened.len() - 1].trim().to_owned()
